@@ -651,8 +651,15 @@ func startsWithDeferredDone(fn *ssa.Function) bool {
 	return false
 }
 
+// ifaceAliases: unexported interfaces that stand for an interface the contracts name (set up by the engine).
+var ifaceAliases = map[string]string{}
+
 func ifaceTypeName(t types.Type) string {
-	return typeString(t)
+	n := typeString(t)
+	if a, ok := ifaceAliases[n]; ok {
+		return a
+	}
+	return n
 }
 
 // ---------------------------------------------------------------- builtins
